@@ -165,6 +165,7 @@ _train_rule = ("random training runs: window and n-gram sizes in 0..4 (independe
 for _pid, _extra in (("C09", ""), ("C10", ""), ("C11", " — corpus kinds cycle through {empty, single class, untagged, partially tagged, partially annotated, ambiguous tags} and all 8 solvers"), ("C12", " — tagged corpora with ambiguity, absent tags, dictionary-only tokens")):
     PROPS[_pid] = {
         "families": [_pid],
+        **({"bin_build": extras.build_repo_bins, "extras": [extras.c11_cli_train]} if _pid == "C11" else {}),
         "nontrivial": lambda line, out: out.startswith("X"),
         "rule": _train_rule + _extra,
         "scopes": {},
